@@ -721,19 +721,22 @@ def rule_r4(prog, res):
                    if isinstance(r, ast.Return)], key=lambda r: r.lineno)
     last = rets[-1].value if rets else None
     t = unparse(last).replace(' ', '') if last is not None else ''
-    none_ok = 'misnotNone' in t
-    span_ok = 'm.span()==(0,len(value))' in t or 'fullmatch' in unparse(f.node)
-    and_ok = isinstance(last, ast.BoolOp) and isinstance(last.op, ast.And) or \
-        'fullmatch' in unparse(f.node)
-    ok = none_ok and span_ok and and_ok
+    full = [c for c in calls_in(f.node) if call_name(c) == 'fullmatch']
+    prefix = [c for c in calls_in(f.node) if call_name(c) in ('match',
+                                                             'search')]
+    ok = bool(full) and not prefix and ('isnotNone' in t or t.startswith(
+        'bool(') or isinstance(last, ast.Call))
     res.ob('R4', f.where, 're_match_with_span: %s' % unparse(last)[:70],
            'ok' if ok else 'VIOLATED')
     if not ok:
         res.finding('R4', 're_match_with_span|whole-string', f.where,
-                    'the pattern facet must be a whole-string match (match '
-                    'is not None and span == (0, len(value))); found %s -- a '
-                    'prefix match or a "$" anchor also accepts a trailing '
-                    'newline' % unparse(last)[:80])
+                    'the pattern facet must be decided by fullmatch(); found '
+                    '%s (with %s) -- match() stops at the first alternative '
+                    'that matches a prefix, so comparing its span with the '
+                    'length refuses values of alternation patterns '
+                    '("[0-9]+|[0-9]+px" against "12px"), and a prefix match '
+                    'or a "$" anchor accepts trailing text' % (
+                        unparse(last)[:60], [unparse(c)[:30] for c in prefix]))
     # patterns are compiled unchanged
     mb = prog.module('spyne.model._base')
     for fn in ('set_pattern', 'set_unicode_pattern'):
@@ -1337,6 +1340,38 @@ def rule_r17(prog, res):
     res.floor('R17', 'calls of the flat-document reader', n, 2)
 
 
+# ------------------------------------------------------------------ R18
+def rule_r18(prog, res):
+    res.rule('R18', 'the XML leaf readers validate and decode the same text: '
+             'what validate_string sees is what from_unicode receives (the '
+             'None of an empty element is substituted before both)')
+    x = prog.cls('spyne.protocol.xml:XmlDocument')
+    n = 0
+    for nm in ('unicode_from_element', 'byte_array_from_element',
+               'base_from_element'):
+        f = x.methods.get(nm)
+        if f is None:
+            continue
+        vs = [c for c in calls_in(f.node) if call_name(c) == 'validate_string'
+              and len(c.args) >= 2]
+        fu = [c for c in calls_in(f.node) if call_name(c) == 'from_unicode'
+              and len(c.args) >= 2]
+        if not vs or not fu:
+            continue
+        n += 1
+        a, b = unparse(vs[0].args[1]), unparse(fu[0].args[1])
+        ok = a == b
+        res.ob('R18', f.where, '%s validates %s and decodes %s' % (nm, a, b),
+               'ok' if ok else 'VIOLATED')
+        if not ok:
+            res.finding('R18', 'XmlDocument.%s|validates-raw-text' % nm,
+                        f.where, '%s validates %s but decodes %s: for an '
+                        'empty element the validator sees None (which skips '
+                        'the length and pattern tests) while the reader '
+                        'delivers the substituted value' % (nm, a, b))
+    res.floor('R18', 'XML leaf readers with a validation sandwich', n, 3)
+
+
 def run(prog, res, tier):
     res.run_rule(rule_r1, prog, res)
     res.run_rule(rule_r2, prog, res)
@@ -1355,6 +1390,7 @@ def run(prog, res, tier):
     res.run_rule(rule_r15, prog, res)
     res.run_rule(rule_r16, prog, res)
     res.run_rule(rule_r17, prog, res)
+    res.run_rule(rule_r18, prog, res)
 
 
 _X = 'spyne/protocol/xml.py'
@@ -1450,9 +1486,19 @@ MUTANTS = [
     Mutant('element-string-unvalidated', 'R1', 'fire', _X,
            in_func('XmlDocument.unicode_from_element',
                    r"        if self\.validator is self\.SOFT_VALIDATION and "
-                   r"not \(\s*cls\.validate_string\(cls, element\.text\)\):"
-                   r"\n            raise ValidationError\(element\.text\)\n",
+                   r"not \(\s*cls\.validate_string\(cls, s\)\):"
+                   r"\n            raise ValidationError\(s\)\n",
                    "", regex=True), 'unicode_from_element'),
+    Mutant('element-string-validated-before-substitution', 'R18', 'fire', _X,
+           in_func('XmlDocument.unicode_from_element',
+                   r"(        # an empty \(non-nil\) element is the empty "
+                   r"string\n        s = element\.text\n        if s is None:"
+                   r"\n            s = ''\n\n)(        if self\.validator is "
+                   r"self\.SOFT_VALIDATION and not \(\s*cls\.validate_string\("
+                   r"cls, s\)\):\n            raise ValidationError\(s\)\n\n)",
+                   lambda m_: m_.group(2).replace("(cls, s)", "(cls, element."
+                   "text)").replace("Error(s)", "Error(element.text)") +
+                   m_.group(1), regex=True), 'validates-raw-text'),
     Mutant('attribute-unvalidated', 'R1', 'fire', _X,
            in_func('XmlDocument.complex_from_element',
                    "value = self._validated_from_unicode(member.type, "
@@ -1544,8 +1590,15 @@ MUTANTS = [
                    "cls.Attributes.max_len"), 'max_len'),
     Mutant('pattern-prefix-match', 'R4', 'fire', _PB,
            in_func('re_match_with_span',
-                   "return (m is not None) and (m.span() == (0, len(value)))",
-                   "return m is not None"), 'whole-string'),
+                   "return attr._pattern_re.fullmatch(value) is not None",
+                   "return attr._pattern_re.match(value) is not None"),
+           'whole-string'),
+    Mutant('pattern-match-plus-span', 'R4', 'fire', _PB,
+           in_func('re_match_with_span',
+                   "return attr._pattern_re.fullmatch(value) is not None",
+                   "m = attr._pattern_re.match(value)\n    return (m is not "
+                   "None) and (m.span() == (0, len(value)))"),
+           'whole-string'),
     Mutant('twin-string-len-split', 'R4', 'benign', _S,
            in_func('Unicode.validate_string',
                    "cls.Attributes.min_len <= len(value) <= "
